@@ -241,8 +241,55 @@ package parser
 //@   loopinv [C20:stack-balanced-inv] SameStack(p.breakStack, old(p.breakStack)) && SameStack(p.continueStack, old(p.continueStack))
 //@ end
 
+// ---- construction and the top-level driver (C06, C18, C20) ----
+//@ pred TextStmtsOK(p *Parser) = forall k int :: {p.textStatements[k]} (0 <= k && k < len(p.textStatements)) ==> (allocated(p.textStatements[k]) && allocated(p.textStatements[k].Name))
+//@ pred MoveNamed(s ast.Statement) = typeis(s, ast.MovementStatement) ==> (allocated(as(s, ast.MovementStatement)) && allocated(as(s, ast.MovementStatement).Name))
+
+//@ func New
+//@   requires l != nil && ValidUTF8(l.input) && LexInv(l)
+//@   modifies fields(l)
+//@   ensures [C18:new] result != nil && fresh(result) && PState(result) && result.l == l && l.input == old(l.input) && len(result.breakStack) == 0 && len(result.continueStack) == 0
+//@   ensures [C06:new-tables] TextTableOK(result) && MoveTableOK(result) && len(result.inlineTexts) == 0 && len(result.inlineMovements) == 0
+//@   ensures [C18:new-normal] result.enableEnvironmentErrors && result.compileSwitches == compileSwitches
+//@ end
+
+//@ func NewLintParser
+//@   requires l != nil && ValidUTF8(l.input) && LexInv(l)
+//@   modifies fields(l)
+//@   ensures [C18:new] result != nil && fresh(result) && PState(result) && result.l == l && l.input == old(l.input) && len(result.breakStack) == 0 && len(result.continueStack) == 0
+//@   ensures [C18:new-lint] !result.enableEnvironmentErrors
+//@ end
+
+// ParseProgram: texts (hoisted and explicit) and movements (hoisted and explicit) have pairwise distinct names in a
+// program that is returned; a clash is an error (C06, C20)
+//@ func (p *Parser) ParseProgram
+//@   requires [C18:pstate] PInv(p) && StackOK(p.breakStack) && StackOK(p.continueStack) && allocated(p.constants) && allocated(p.inlineTextCounts) && allocated(p.inlineMovementCounts)
+//@   requires [C18:pstate] p.constants != p.inlineMovementsSet
+//@   modifies fields(p), fields(p.l), fields(p.constants), fields(p.inlineTextCounts), fields(p.inlineMovementCounts), allof(ast.CommandStatement.Args)
+//@   ensures [C06,C20:text-names] result1 == nil ==> (result0 != nil && (forall a int, b int :: {result0.Texts[a], result0.Texts[b]} (0 <= a && a < b && b < len(result0.Texts)) ==> result0.Texts[a].Name != result0.Texts[b].Name))
+//@   loop 1
+//@     invariant [C18:pstate-inv] PState(p) && p.l == old(p.l) && p.l.input == old(p.l.input) && fresh(p.inlineTextsSet) && fresh(p.inlineMovementsSet) && p.constants == old(p.constants) && p.inlineTextCounts == old(p.inlineTextCounts) && p.inlineMovementCounts == old(p.inlineMovementCounts)
+//@     invariant [C06:tables-inv] TextTableOK(p) && MoveTableOK(p)
+//@     invariant [C18:program] program != nil && fresh(program) && TextStmtsOK(p) && (forall k int :: {program.TopLevelStatements[k]} (0 <= k && k < len(program.TopLevelStatements)) ==> MoveNamed(program.TopLevelStatements[k]))
+//@   loop 2
+//@     invariant [C18:program] program != nil && fresh(program) && TextStmtsOK(p)
+//@   loop 3
+//@     invariant [C18:program] program != nil && fresh(program) && names != nil && fresh(names)
+//@     invariant [C06,C20:text-names-inv] $i <= len(program.Texts) && (forall a int :: {program.Texts[a]} (0 <= a && a < $i) ==> indom(names, program.Texts[a].Name))
+//@        && (forall a int, b int :: {program.Texts[a], program.Texts[b]} (0 <= a && a < b && b < $i) ==> program.Texts[a].Name != program.Texts[b].Name)
+//@        && (forall nm string :: {indom(names, nm)} indom(names, nm) ==> (exists a int :: 0 <= a && a < $i && program.Texts[a].Name == nm))
+//@   loop 4
+//@     invariant [C18:program] program != nil && fresh(program) && MoveTableOK(p) && (forall k int :: {program.TopLevelStatements[k]} (0 <= k && k < len(program.TopLevelStatements)) ==> MoveNamed(program.TopLevelStatements[k]))
+//@   loop 5
+//@     invariant [C18:program] program != nil && fresh(program) && movementNames != nil && fresh(movementNames) && (forall k int :: {program.TopLevelStatements[k]} (0 <= k && k < len(program.TopLevelStatements)) ==> MoveNamed(program.TopLevelStatements[k]))
+//@        && (forall nm string :: {indom(movementNames, nm)} indom(movementNames, nm) ==> allocated(movementNames[nm]))
+//@ end
+
 //@ func (p *Parser) parseTopLevelStatement
 //@   include TopFrame
+//@   ensures [C18:mov-named] result1 == nil ==> MoveNamed(result0)
+//@   requires [C18:text-stmts] TextStmtsOK(p)
+//@   ensures [C18:text-stmts] TextStmtsOK(p)
 //@   requires [C06:tables] TextTableOK(p) && MoveTableOK(p)
 //@   ensures [C06:text-table] TextTableOK(p)
 //@   ensures [C06:move-table] MoveTableOK(p)
@@ -385,6 +432,9 @@ package parser
 
 //@ func (p *Parser) parseTextStatement
 //@   include ParseFrame
+//@   ensures [C18:text-named] result1 == nil ==> (result0 != nil && fresh(result0) && result0.Name != nil && fresh(result0.Name))
+//@   requires [C18:text-stmts] TextStmtsOK(p)
+//@   ensures [C18:text-stmts] TextStmtsOK(p)
 //@   modifies p.textStatements
 //@   ensures [C20:stack-balanced] result1 == nil ==> (SameStack(p.breakStack, old(p.breakStack)) && SameStack(p.continueStack, old(p.continueStack)))
 //@   loopinv [C20:stack-balanced-inv] SameStack(p.breakStack, old(p.breakStack)) && SameStack(p.continueStack, old(p.continueStack))
@@ -421,6 +471,7 @@ package parser
 
 //@ func (p *Parser) parseMovementStatement
 //@   include ParseFrame
+//@   ensures [C18:mov-named] result1 == nil ==> (result0 != nil && fresh(result0) && result0.Name != nil && fresh(result0.Name))
 //@   ensures [C20:stack-balanced] result1 == nil ==> (SameStack(p.breakStack, old(p.breakStack)) && SameStack(p.continueStack, old(p.continueStack)))
 //@   loopinv [C20:stack-balanced-inv] SameStack(p.breakStack, old(p.breakStack)) && SameStack(p.continueStack, old(p.continueStack))
 //@ end
